@@ -3,13 +3,13 @@ import Nstd.Hash.GenStep
 import Nstd.Hash.Props
 /-
   Property C02 for the machine that runs the TRANSLATED bodies (`GenStep.lean`: `gstep` = `pstep` with `insert`, `remove`
-  (key / iterator / value address), `removeFront`, `removeBack`, `clear`, `swap`, `find` of the current headers as
+  (key / iterator / value address), `removeFront`, `removeBack`, `clear`, `swap`, `find`, `operator=`, bulk append / remove, `==` of the current headers as
   tools/gen_hash.py translates them): on every state that represents a model state one step of it IS the step of the
   pointer-level model (`gstep_eq_pstep`), hence every run is (`grun_eq_prun`), hence the results of every operation history
   equal those of the insertion-ordered association list (`gen_refines`), for every container kind, hash function, pair of
-  capacities and block size.  Not translated (hand-translated in `PtrModel.lean`, tied by the correspondence run): the
-  constructors, the copy / assignment / bulk loops over `other`, the self-argument members, `operator==`, the iterator
-  walks of the queries.
+  capacities and block size.  Also translated: `operator=` , HashSet `append(other)` / `remove(other)`, `operator==` (and `!=` as its negation).
+  Not translated (hand-translated in `PtrModel.lean`, tied by the correspondence run): the constructors incl. the copy
+  constructor, the self-argument members (`a.swap(a)`, `a.append(a)`, `a.remove(a)`), `setValue`, the iterator walks of the queries.
 -/
 set_option linter.unusedSimpArgs false
 set_option linter.unusedVariables false
@@ -159,6 +159,28 @@ theorem gstep_eq_pstep (kind : Kind) (h : Nat → Nat) (ps : PState) (s : State)
     cases (ps.get t).find h k with
     | none => simp
     | some r => cases r <;> simp [findResult, iterOf]
+  | assign t =>
+    simp only [gstep, pstep, hav, Bool.not_true, Bool.false_eq_true, if_false]
+    cases kind <;> simp only [gAssign, gen_map_assign, gen_set_assign]
+  | appendAll t =>
+    simp only [gstep, pstep, hav, Bool.not_true, Bool.false_eq_true, if_false]
+    by_cases hk : kind = Kind.set
+    · subst hk; simp only [if_true, gen_set_appendAll]
+    · simp only [hk, if_false]
+  | removeAll t =>
+    obtain ⟨hr, hself⟩ := hp.get t
+    simp only [gstep, pstep, hav, Bool.not_true, Bool.false_eq_true, if_false]
+    by_cases hk : kind = Kind.set
+    · subst hk; simp only [if_true, gen_set_removeAll h hr (hs.get t)]
+    · simp only [hk, if_false]
+  | equal t u =>
+    simp only [gstep, pstep, hav, Bool.not_true, Bool.false_eq_true, if_false]
+    cases kind <;> simp only [gEqual, gen_map_equal, gen_set_equal, Option.map_map] <;>
+      (cases PTable.equal _ (ps.get t) (ps.get u) <;> rfl)
+  | notEqual t u =>
+    simp only [gstep, pstep, hav, Bool.not_true, Bool.false_eq_true, if_false]
+    cases kind <;> simp only [gEqual, gen_map_equal, gen_set_equal, Option.map_map] <;>
+      (cases PTable.equal _ (ps.get t) (ps.get u) <;> rfl)
   | _ => simp [gstep, hav]
 /-- … hence every run from a represented state: the same final state, the same results, rejected iff the model rejects. -/
 theorem grun_eq_prun (kind : Kind) (h : Nat → Nat) (ops : List Op) (ps : PState) (s : State) (hp : PRel ps s) (hs : SInv h s) :
@@ -211,6 +233,16 @@ example :
       [.construct false 2, .append false 5 0, .append false 6 0, .append false 7 0, .removeValue false 1, .removeAt false 0,
        .iterate false, .append false 9 0, .iterate false]).map (fun r => r.2)
     = some [.unit, .num 0, .num 0, .num 0, .unit, .num 0, .entries [(7, 0)], .num 0, .entries [(7, 0), (9, 0)]] := by
+  decide +kernel
+
+/-- HashSet: bulk append / remove with overlap, `==`, assignment, `!=` through the translated loops over `other` -/
+example :
+    (grun Kind.set (fun k => k % 2) pinit
+      [.construct false 2, .construct true 1, .append false 1 0, .append false 3 0, .append false 2 0, .append true 3 0, .append true 4 0,
+       .appendAll false, .iterate false, .removeAll false, .iterate false, .equal false true, .assign false, .equal false true,
+       .notEqual true false, .iterate false]).map (fun r => r.2)
+    = some [.unit, .unit, .unit, .unit, .unit, .unit, .unit, .unit, .entries [(1, 0), (3, 0), (2, 0), (4, 0)], .unit,
+            .entries [(1, 0), (2, 0)], .flag false, .unit, .flag true, .flag false, .entries [(3, 0), (4, 0)]] := by
   decide +kernel
 
 end Nstd.Hash.Ptr
